@@ -267,3 +267,269 @@ Lemma upd_same : forall (m : N -> option ment) x e y, m x = Some e -> m y = if y
 Proof. intros. destruct (N.eqb_spec y x); congruence. Qed.
 Lemma set_e_spec : forall (m : N -> option ment) x e y, set_e m x e y = if y =? x then Some e else m y.
 Proof. reflexivity. Qed.
+
+#[local] Opaque dec.
+Lemma shape_create : forall c s x sz, DI c s -> wf_op c s (Create x sz) = true -> oshape c s (Create x sz).
+Proof.
+  intros c s x sz D W.
+  destruct (mem s x) as [e|] eqn:M.
+  - apply os_noop; cbn [step]; rewrite M; reflexivity.
+  - pose proof (di_keys c s D x) as K. rewrite M in K. cbn in K.
+    destruct (msize s + sz <=? c_cap c) eqn:F.
+    + apply N.leb_le in F.
+      eapply (os_create c s _ x sz (mkdirall AInc (shard_path c x) (sdirs (disk s)))); auto.
+      * apply shards_mkdirall.
+      * cbn [step]. rewrite M, K. cbn [snd]. replace (msize s + sz <=? c_cap c) with true by (symmetry; now apply N.leb_le).
+        cbn. unfold wr. destruct (dec sz) eqn:E; [now apply dec_nonempty in E|].
+        destruct (c_ri c); rewrite <- ?app_assoc; reflexivity.
+      * cbn [step]. rewrite M, K. cbn [snd]. replace (msize s + sz <=? c_cap c) with true by (symmetry; now apply N.leb_le).
+        cbn. reflexivity.
+    + apply os_noop; cbn [step]; rewrite M, F; cbn; destruct (existsb _ _); reflexivity.
+Qed.
+
+Lemma shape_delete : forall c s x ord, DI c s -> wf_op c s (Delete x ord) = true -> oshape c s (Delete x ord).
+Proof.
+  intros c s x ord D W.
+  destruct (mem s x) as [e|] eqn:M.
+  - pose proof (di_keys c s D x) as K. rewrite M in K. apply di_vget in K. destruct K as [d [V [OK Hv]]].
+    unfold wf_op in W. cbn [step] in W. rewrite M, V in W.
+    destruct (legal_order ord (Some d)) eqn:L; [|cbn in W; discriminate].
+    eapply (os_rm c s _ x e d ord); auto.
+    + cbn. apply N.eqb_refl.
+    + cbn [step]. rewrite M, V, L. reflexivity.
+    + cbn [step]. rewrite M, V, L. reflexivity.
+  - apply os_noop; cbn [step]; rewrite M; reflexivity.
+Qed.
+
+Lemma shape_evict : forall c s x sz ord, DI c s -> wf_op c s (Evict x sz ord) = true -> oshape c s (Evict x sz ord).
+Proof.
+  intros c s x sz ord D W.
+  unfold wf_op in W. cbn [step] in W.
+  destruct (msize s + sz <=? c_cap c) eqn:F; [cbn in W; discriminate|].
+  destruct (mem s x) as [e|] eqn:M; [|cbn in W; discriminate].
+  pose proof (di_keys c s D x) as K. rewrite M in K. apply di_vget in K. destruct K as [d [V [OK Hv]]].
+  destruct (evictable (Some e)) eqn:Ev; [|cbn in W; discriminate].
+  assert (A : area_of e = AComp) by (unfold area_of; cbn in Ev; destruct (e_complete e); [reflexivity|discriminate]).
+  rewrite A in V. cbn [vget] in V. rewrite V in W.
+  destruct (legal_order ord (Some d)) eqn:L; [|cbn in W; discriminate].
+  eapply (os_rm c s _ x e d ord); auto.
+  - cbn. apply N.eqb_refl.
+  - rewrite A. exact V.
+  - cbn [step]. rewrite F, M, V, Ev, L, A. reflexivity.
+  - cbn [step]. rewrite F, M, V, Ev, L. reflexivity.
+Qed.
+
+Lemma shape_mc : forall c s x, DI c s -> wf_op c s (MarkComplete x) = true -> oshape c s (MarkComplete x).
+Proof.
+  intros c s x D W.
+  destruct (mem s x) as [e|] eqn:M.
+  - destruct (e_complete e) eqn:C.
+    + apply os_noop; cbn [step]; rewrite M, C; reflexivity.
+    + pose proof (di_keys c s D x) as K. rewrite M in K. destruct K as [d [Hv OK]].
+      unfold area_of in Hv. rewrite C in Hv. cbn in Hv.
+      eapply (os_mc c s _ x e d (mkdirall AComp (shard_path c x) (sdirs (disk s)))); auto.
+      * apply shards_mkdirall.
+      * cbn [step]. rewrite M, C, Hv. cbn. reflexivity.
+      * cbn [step]. rewrite M, C, Hv. cbn. reflexivity.
+  - apply os_noop; cbn [step]; rewrite M; reflexivity.
+Qed.
+
+Lemma vset_vset_base : forall a d v d0, v = vset a (Some d0) (None, None) -> vset a (Some d) v = vset a (Some d) (None, None).
+Proof. intros [] d v d0 ->; reflexivity. Qed.
+
+(* single-call (or empty) bodies: every prefix is the start or the whole *)
+Lemma short_body : forall body v, (length body <= 1)%nat ->
+  forall pk, prefix pk body -> veq (kexec pk v) v \/ kexec pk v = kexec body v.
+Proof.
+  intros body v H pk Hp. destruct (prefix_le1 _ _ H Hp) as [->| ->]; [left; apply veq_refl|now right].
+Qed.
+
+Lemma shape_ban : forall c s x, DI c s -> wf_op c s (Ban x) = true -> oshape c s (Ban x).
+Proof.
+  intros c s x D W.
+  destruct (mem s x) as [e|] eqn:M.
+  - destruct (e_banned e) eqn:B.
+    + apply os_noop; cbn [step]; rewrite M, B; reflexivity.
+    + pose proof (di_keys c s D x) as K. rewrite M in K. apply di_vget in K. destruct K as [d [V [OK Hv]]].
+      destruct OK as [b [Hd [Hl [Hb Hs]]]].
+      eapply (os_dir c s _ x e d [COpen (area_of e) x FBan OPlain] (mkment (e_size e) (e_complete e) true)
+                     (fset FBan (Some []) d)); auto.
+      * intros y; discriminate.
+      * repeat constructor.
+      * cbn [step]. rewrite M, B, V. reflexivity.
+      * intros y. cbn [step]. rewrite M, B, V. reflexivity.
+      * cbn [step]. rewrite M, B, V. reflexivity.
+      * cbn [kexec fold_left]. unfold kapply. cbn [kstep]. rewrite V. cbn [fget]. rewrite Hb, B. reflexivity.
+      * apply short_body. cbn. lia.
+      * exists b. cbn. repeat split; auto.
+  - apply os_noop; cbn [step]; rewrite M; reflexivity.
+Qed.
+
+Lemma shape_unban : forall c s x, DI c s -> wf_op c s (Unban x) = true -> oshape c s (Unban x).
+Proof.
+  intros c s x D W.
+  destruct (mem s x) as [e|] eqn:M.
+  - destruct (e_banned e) eqn:B.
+    + pose proof (di_keys c s D x) as K. rewrite M in K. apply di_vget in K. destruct K as [d [V [OK Hv]]].
+      destruct OK as [b [Hd [Hl [Hb Hs]]]].
+      assert (KS : kstep (CUnlink (area_of e) x FBan) (blobs (disk s) x)
+                   = Some (vset (area_of e) (Some (fset FBan None d)) (blobs (disk s) x))).
+      { cbn [kstep]. rewrite V. cbn [fget]. rewrite Hb, B. reflexivity. }
+      eapply (os_dir c s _ x e d [CUnlink (area_of e) x FBan] (mkment (e_size e) (e_complete e) false)
+                     (fset FBan None d)); auto.
+      * intros y; discriminate.
+      * repeat constructor.
+      * cbn [step]. rewrite M, B, KS. reflexivity.
+      * intros y. cbn [step]. rewrite M, B, KS. reflexivity.
+      * cbn [step]. rewrite M, B, KS. reflexivity.
+      * cbn [kexec fold_left]. unfold kapply. rewrite KS. reflexivity.
+      * apply short_body. cbn. lia.
+      * exists b. cbn. repeat split; auto.
+    + apply os_noop; cbn [step]; rewrite M, B; reflexivity.
+  - apply os_noop; cbn [step]; rewrite M; reflexivity.
+Qed.
+
+Lemma vset_vget_id : forall a v d, vget a v = Some d -> vset a (Some d) v = v.
+Proof. intros [] [vc vi] d H; cbn in *; congruence. Qed.
+Lemma vget_vset : forall a o v, vget a (vset a o v) = o.
+Proof. intros [] o [vc vi]; reflexivity. Qed.
+Lemma vset_vset : forall a o o' v, vset a o (vset a o' v) = vset a o v.
+Proof. intros [] o o' [vc vi]; reflexivity. Qed.
+
+Lemma shape_write : forall c s x off data, DI c s -> wf_op c s (WriteAt x off data) = true -> oshape c s (WriteAt x off data).
+Proof.
+  intros c s x off data D W.
+  destruct (mem s x) as [e|] eqn:M.
+  - pose proof (di_keys c s D x) as K. rewrite M in K. apply di_vget in K. destruct K as [d [V [OK Hv]]].
+    destruct OK as [b [Hd [Hl [Hb Hs]]]].
+    unfold wf_op in W. apply andb_true_iff in W. destruct W as [_ W]. rewrite M in W. apply N.leb_le in W.
+    eapply (os_dir c s _ x e d (wr (area_of e) x FData off data) e
+              (match data with [] => d | _ => fset FData (Some (write_at b off data)) d end)); auto.
+    + intros y; discriminate.
+    + apply konly_wr.
+    + cbn [step]. rewrite M, V, Hd. reflexivity.
+    + intros y. cbn [step]. rewrite M, V, Hd. cbn [st_of fst mem]. now apply upd_same.
+    + cbn [step]. rewrite M, V, Hd. reflexivity.
+    + unfold wr. destruct data as [|z data]; cbn [kexec fold_left].
+      * symmetry. now apply vset_vget_id.
+      * unfold kapply. cbn [kstep]. rewrite V. cbn [fget]. rewrite Hd. reflexivity.
+    + apply short_body, wr_length.
+    + destruct data as [|z data]; [exists b; auto|].
+      exists (write_at b off (z :: data)). cbn [fset d_data d_ban d_sizef]. repeat split; auto.
+      rewrite write_at_length. lia.
+  - apply os_noop; cbn [step]; rewrite M; reflexivity.
+Qed.
+
+Lemma shape_delmd : forall c s x sfx, DI c s -> wf_op c s (DelMd x sfx) = true -> oshape c s (DelMd x sfx).
+Proof.
+  intros c s x sfx D W.
+  destruct (mem s x) as [e|] eqn:M.
+  - pose proof (di_keys c s D x) as K. rewrite M in K. apply di_vget in K. destruct K as [d [V [OK Hv]]].
+    destruct OK as [b [Hd [Hl [Hb Hs]]]].
+    destruct (aget sfx (d_md d)) as [mdv|] eqn:G.
+    + assert (KS : kstep (CUnlink (area_of e) x (FMd sfx)) (blobs (disk s) x)
+                   = Some (vset (area_of e) (Some (fset (FMd sfx) None d)) (blobs (disk s) x))).
+      { cbn [kstep]. rewrite V. cbn [fget]. rewrite G. reflexivity. }
+      eapply (os_dir c s _ x e d [CUnlink (area_of e) x (FMd sfx)] e (fset (FMd sfx) None d)); auto.
+      * intros y; discriminate.
+      * repeat constructor.
+      * cbn [step]. rewrite M, KS. reflexivity.
+      * intros y. cbn [step]. rewrite M, KS. cbn [st_of fst mem]. now apply upd_same.
+      * cbn [step]. rewrite M, KS. reflexivity.
+      * cbn [kexec fold_left]. unfold kapply. rewrite KS. reflexivity.
+      * apply short_body. cbn. lia.
+      * exists b. cbn. repeat split; auto.
+    + apply os_noop; cbn [step]; rewrite M; cbn [kstep]; rewrite V; cbn [fget]; rewrite G; reflexivity.
+  - apply os_noop; cbn [step]; rewrite M; reflexivity.
+Qed.
+
+Lemma shape_wmd : forall c s x sfx off data, DI c s -> wf_op c s (WriteAtMd x sfx off data) = true ->
+  oshape c s (WriteAtMd x sfx off data).
+Proof.
+  intros c s x sfx off data D W.
+  destruct (mem s x) as [e|] eqn:M.
+  - pose proof (di_keys c s D x) as K. rewrite M in K. apply di_vget in K. destruct K as [d [V [OK Hv]]].
+    destruct OK as [b [Hd [Hl [Hb Hs]]]].
+    destruct (aget sfx (d_md d)) as [mdv|] eqn:G.
+    + eapply (os_dir c s _ x e d (wr (area_of e) x (FMd sfx) off data) e
+                (match data with [] => d | _ => fset (FMd sfx) (Some (write_at mdv off data)) d end)); auto.
+      * intros y; discriminate.
+      * apply konly_wr.
+      * cbn [step]. rewrite M, V, G. reflexivity.
+      * intros y. cbn [step]. rewrite M, V, G. cbn [st_of fst mem]. now apply upd_same.
+      * cbn [step]. rewrite M, V, G. reflexivity.
+      * unfold wr. destruct data as [|z data]; cbn [kexec fold_left].
+        -- symmetry. now apply vset_vget_id.
+        -- unfold kapply. cbn [kstep]. rewrite V. cbn [fget]. rewrite G. reflexivity.
+      * apply short_body, wr_length.
+      * destruct data as [|z data]; exists b; cbn; repeat split; auto.
+    + apply os_noop; cbn [step]; rewrite M, V, G; reflexivity.
+  - apply os_noop; cbn [step]; rewrite M; reflexivity.
+Qed.
+
+Lemma write_at_nil : forall data, write_at [] 0 data = data.
+Proof. intros. unfold write_at. cbn. rewrite skipn_nil. apply app_nil_r. Qed.
+
+Lemma kstep_trunc : forall a x f v d, vget a v = Some d ->
+  kstep (COpen a x f OTrunc) v = Some (vset a (Some (fset f (Some []) d)) v).
+Proof. intros. cbn [kstep]. rewrite H. destruct (fget f d); reflexivity. Qed.
+
+Lemma kexec_cons : forall c t v, kexec (c :: t) v = kexec t (kapply v c).
+Proof. reflexivity. Qed.
+
+Lemma shape_setmd : forall c s x sfx data, DI c s -> wf_op c s (SetMd x sfx data) = true -> oshape c s (SetMd x sfx data).
+Proof.
+  intros c s x sfx data D W.
+  destruct (mem s x) as [e|] eqn:M.
+  - pose proof (di_keys c s D x) as K. rewrite M in K. apply di_vget in K. destruct K as [d [V [OK Hv]]].
+    destruct OK as [b [Hd [Hl [Hb Hs]]]].
+    set (a := area_of e) in *. set (v := blobs (disk s) x) in *.
+    set (d2 := fset (FTmp sfx) (Some []) d).
+    set (d3 := match data with [] => d2 | _ => fset (FTmp sfx) (Some data) d2 end).
+    set (d4 := fset (FMd sfx) (Some data) (fset (FTmp sfx) None d3)).
+    assert (K1 : kapply v (COpen a x (FTmp sfx) OTrunc) = vset a (Some d2) v).
+    { unfold kapply. now rewrite (kstep_trunc _ _ _ _ d). }
+    assert (G2 : fget (FTmp sfx) d2 = Some []) by (unfold d2; cbn; now rewrite N.eqb_refl).
+    assert (K2 : kexec (wr a x (FTmp sfx) 0 data) (vset a (Some d2) v) = vset a (Some d3) v).
+    { unfold wr, d3. destruct data as [|z data]; [reflexivity|].
+      cbn [kexec fold_left]. unfold kapply. cbn [kstep]. rewrite vget_vset, G2, write_at_nil, vset_vset. reflexivity. }
+    assert (G3 : fget (FTmp sfx) d3 = Some data).
+    { unfold d3. destruct data; [exact G2|]. cbn. now rewrite N.eqb_refl. }
+    assert (K3 : kapply (vset a (Some d3) v) (CRenFile a x (FTmp sfx) (FMd sfx)) = vset a (Some d4) v).
+    { unfold kapply. cbn [kstep]. rewrite vget_vset, G3, vset_vset. reflexivity. }
+    assert (E2 : deq d2 d) by (unfold d2; repeat split).
+    assert (E3 : deq d3 d) by (unfold d3; destruct data; [exact E2|repeat split]).
+    eapply (os_dir c s _ x e d (COpen a x (FTmp sfx) OTrunc :: wr a x (FTmp sfx) 0 data ++ [CRenFile a x (FTmp sfx) (FMd sfx)]) e d4); auto.
+    + intros y; discriminate.
+    + constructor; [reflexivity|]. apply konly_app; [apply konly_wr|repeat constructor].
+    + cbn [step]. rewrite M. fold a. fold v. rewrite V. reflexivity.
+    + intros y. cbn [step]. rewrite M. fold a. fold v. rewrite V. cbn [st_of fst mem]. now apply upd_same.
+    + cbn [step]. rewrite M. fold a. fold v. rewrite V. reflexivity.
+    + fold a; fold v. rewrite kexec_cons, K1, kexec_app, K2, kexec_cons. exact K3.
+    + fold a; fold v. intros pk Hp. apply prefix_cons in Hp. destruct Hp as [->|[p1 [-> Hp]]]; [left; apply veq_refl|].
+      rewrite kexec_cons, K1.
+      apply prefix_app_cases in Hp. destruct Hp as [Hp|[p2 [-> Hp]]].
+      * left. destruct (prefix_le1 _ _ (wr_length _ _ _ _ _) Hp) as [->| ->].
+        -- cbn. rewrite <- (vset_vget_id a v d V) at 2. now apply veq_vset.
+        -- rewrite K2. rewrite <- (vset_vget_id a v d V) at 2. now apply veq_vset.
+      * rewrite kexec_app, K2. apply prefix_one in Hp. destruct Hp as [->| ->].
+        -- left. cbn. rewrite <- (vset_vget_id a v d V) at 2. now apply veq_vset.
+        -- right. rewrite (kexec_cons (COpen a x (FTmp sfx) OTrunc)), K1, kexec_app, K2. reflexivity.
+    + exists b. unfold d4, d3. destruct data; cbn; repeat split; auto.
+  - apply os_noop; cbn [step]; rewrite M; reflexivity.
+Qed.
+
+Lemma step_shape : forall c s o, DI c s -> wf_op c s o = true -> oshape c s o.
+Proof.
+  intros c s o D W. destruct o.
+  - now apply shape_evict.
+  - now apply shape_create.
+  - now apply shape_write.
+  - now apply shape_mc.
+  - now apply shape_delete.
+  - now apply shape_ban.
+  - now apply shape_unban.
+  - now apply shape_setmd.
+  - now apply shape_delmd.
+  - now apply shape_wmd.
+Qed.
